@@ -42,6 +42,5 @@ Definition run (c : case) : list N :=
     corr_of (compile FUEL Compressed (c_prog c)) (c_comp c);
     b2n (clause_present false c (c_exp c)); b2n (clause_present true c (c_comp c));
     b2n (clause_error c (c_exp c) && clause_error c (c_comp c));
-    b2n (known_ns_block (c_prog c));
     (* model side: number of errors swallowed by Drop impls in the expanded run *)
     match compile FUEL Expanded (c_prog c) with Ok (_, k) => N.of_nat k | _ => 0 end ].
